@@ -342,47 +342,6 @@ func forests(ids []string) []map[string]string {
 }
 
 func c13Run(c *core.Ctx) {
-	styles := []string{"a", "b", "c"}
-	regions := []string{"r", "q"}
-	sopt := append([]string{""}, styles...)
-	ropt := append([]string{""}, regions...)
-	fs := forests(styles)
-	var cueShapes []GCue
-	// quick: cues with one run; thorough: also two runs
-	for _, st := range sopt {
-		for _, rg := range ropt {
-			for _, r1 := range sopt {
-				cueShapes = append(cueShapes, GCue{st, rg, []string{r1}, false})
-				if c.Tier == core.Thorough {
-					for _, r2 := range sopt {
-						cueShapes = append(cueShapes, GCue{st, rg, []string{r1, r2}, false}, GCue{st, rg, []string{r1, r2}, true})
-					}
-				}
-			}
-		}
-	}
-	var cueLists [][]GCue
-	cueLists = append(cueLists, nil)
-	for _, a := range cueShapes {
-		cueLists = append(cueLists, []GCue{a})
-	}
-	twoRun := []GCue{}
-	for _, r1 := range sopt {
-		for _, r2 := range sopt {
-			twoRun = append(twoRun, GCue{"", "", []string{r1, r2}, false}, GCue{"", "", []string{r1, r2}, true})
-		}
-	}
-	for _, a := range twoRun {
-		cueLists = append(cueLists, []GCue{a})
-	}
-	for i, a := range cueShapes {
-		for j, b := range cueShapes {
-			if c.Tier == core.Quick && len(cueShapes) > 60 && (i+j)%2 == 1 {
-				continue
-			}
-			cueLists = append(cueLists, []GCue{a, b})
-		}
-	}
 	run := func(g Graph, sub string) {
 		key, msg, out := checkOptimize(g)
 		c.Transitions++
@@ -405,28 +364,107 @@ func c13Run(c *core.Ctx) {
 			c.Violate("removestyling", key, msg, g, len(g.Cues))
 		}
 	}
-	for _, f := range fs {
-		for _, rs1 := range sopt {
-			for _, rs2 := range sopt {
-				for _, cl := range cueLists {
-					if !c.Mine() {
-						continue
+	expired := false
+	enum := func(styles, regions []string, withPairs bool) {
+		sopt := append([]string{""}, styles...)
+		ropt := append([]string{""}, regions...)
+		fs := forests(styles)
+		var cueShapes []GCue
+		// quick: cues with one run; thorough: also two runs
+		for _, st := range sopt {
+			for _, rg := range ropt {
+				for _, r1 := range sopt {
+					cueShapes = append(cueShapes, GCue{st, rg, []string{r1}, false})
+					if c.Tier == core.Thorough {
+						for _, r2 := range sopt {
+							cueShapes = append(cueShapes, GCue{st, rg, []string{r1, r2}, false}, GCue{st, rg, []string{r1, r2}, true})
+						}
 					}
-					g := Graph{Styles: styles, Regions: regions, Parent: f, RegionStyle: map[string]string{}, Cues: cl}
-					if rs1 != "" {
-						g.RegionStyle["r"] = rs1
-					}
-					if rs2 != "" {
-						g.RegionStyle["q"] = rs2
-					}
-					run(g, "optimize")
 				}
 			}
 		}
-		if c.Expired() {
-			return
+		var cueLists [][]GCue
+		cueLists = append(cueLists, nil)
+		for _, a := range cueShapes {
+			cueLists = append(cueLists, []GCue{a})
+		}
+		twoRun := []GCue{}
+		for _, r1 := range sopt {
+			for _, r2 := range sopt {
+				twoRun = append(twoRun, GCue{"", "", []string{r1, r2}, false}, GCue{"", "", []string{r1, r2}, true})
+			}
+		}
+		for _, a := range twoRun {
+			cueLists = append(cueLists, []GCue{a})
+		}
+		for i, a := range cueShapes {
+			if !withPairs {
+				break
+			}
+			for j, b := range cueShapes {
+				if c.Tier == core.Quick && len(cueShapes) > 60 && (i+j)%2 == 1 {
+					continue
+				}
+				cueLists = append(cueLists, []GCue{a, b})
+			}
+		}
+		for _, f := range fs {
+			for _, rs1 := range sopt {
+				if rs1 != "" && len(regions) < 1 {
+					continue
+				}
+				for _, rs2 := range sopt {
+					if rs2 != "" && len(regions) < 2 {
+						continue
+					}
+					for _, cl := range cueLists {
+						if !c.Mine() {
+							continue
+						}
+						g := Graph{Styles: styles, Regions: regions, Parent: f, RegionStyle: map[string]string{}, Cues: cl}
+						if rs1 != "" {
+							g.RegionStyle[regions[0]] = rs1
+						}
+						if rs2 != "" {
+							g.RegionStyle[regions[1]] = rs2
+						}
+						run(g, "optimize")
+					}
+				}
+			}
+			if c.Expired() {
+				expired = true
+				return
+			}
 		}
 	}
+	// the full definition set with cue pairs, then every smaller set of definitions (0..3 styles x 0..2 regions: a
+	// list without any style, without any region, with a single definition ...) with the empty list and single cues
+	allS, allR := []string{"a", "b", "c"}, []string{"r", "q"}
+	enum(allS, allR, true)
+	for sm := 0; sm < 8 && !expired; sm++ {
+		for rm := 0; rm < 4 && !expired; rm++ {
+			if sm == 7 && rm == 3 {
+				continue
+			}
+			var ss, rr []string
+			for i, id := range allS {
+				if sm>>i&1 == 1 {
+					ss = append(ss, id)
+				}
+			}
+			for i, id := range allR {
+				if rm>>i&1 == 1 {
+					rr = append(rr, id)
+				}
+			}
+			enum(ss, rr, false)
+		}
+	}
+	if expired {
+		return
+	}
+	regions := allR
 	// inheritance chains of depth 4 and 5, referenced at each level through each kind of edge
 	chain := []string{"a", "b", "c", "d", "e"}
 	par := map[string]string{"a": "b", "b": "c", "c": "d", "d": "e"}
@@ -469,7 +507,7 @@ func init() {
 		ID: "C13", Level: "model_checking",
 		Rule: "states = reference graphs (cue->style, run->style, cue->region, region->style, style->parent forest, unused and shared definitions); transitions = the real Optimize / RemoveStyling on a fresh real list built from the graph, compared with a reachability closure computed by the harness (kept ids, every remaining reference resolves, cues untouched, idempotent, empty list untouched) and with a reflective no-styling-left walk; conversion sub-check: the optimized list is written by every writer and read back (see C13 conv); non-trivial = at least one definition is unreachable",
 		Scope: map[core.Tier]string{
-			core.Quick:    "ALL graphs over 3 styles (all 16 parent forests) x 2 regions (all 16 style refs) x cue lists: empty, every single cue (style x region x 1 run), every 2-run cue, half of all cue pairs; inheritance chains of depth 4-5 reached through each edge kind",
+			core.Quick:    "ALL graphs over 3 styles (all 16 parent forests) x 2 regions (all 16 style refs) and over every smaller definition set (0..3 styles x 0..2 regions, incl. none of either kind) x cue lists: empty, every single cue (style x region x 1 run), every 2-run cue, half of all cue pairs; inheritance chains of depth 4-5 reached through each edge kind",
 			core.Thorough: "same with every cue having 1 or 2 runs and all cue pairs",
 		},
 		Assumptions: []string{"Go toolchain and standard library", "definitions are stored under their own identifier and every reference points into the maps (property wording: keyed by their identifier)", "reference reachability refops.Reach"},
